@@ -1,5 +1,58 @@
 import JF.Driver.Core
+import JF.Model.Lifting
 namespace JF.Driver
-/-- component `lift` (stub until its model is written) -/
-def liftComp : Comp := Comp.pure fun _ => "unimplemented"
+open JF JF.Lifting
+
+private def errTok : LiftErr → String
+  | .assertion => "err:AssertionError"
+  | .notRecorded => "err:LiftingSchemeError"
+  | .index => "err:IndexError"
+
+private def showRes : Except LiftErr Nat → String
+  | .ok i => s!"id:{i}"
+  | .error e => errTok e
+
+private def showState (s : Lifting Float Nat) : String :=
+  s!"{bits s.pos} {bits s.sumPos} {b01 s.recorded} {s.neg.length}"
+
+private def scheme? : String → Option Scheme
+  | "inside" => some .inside
+  | "outside" => some .outside
+  | "ratio" => some .ratio
+  | _ => none
+
+/-- `r1 id1 r2 id2 …` -/
+private def parseTbl : List String → List (Float × Nat)
+  | r :: i :: rest => (fl r, nat! i) :: parseTbl rest
+  | _ => []
+
+/-- component `lift`: one `Lifting` object per session.
+* `reset`                          -> state
+* `ins <rate> <id> <0|1> <u>`      -> state | err:AssertionError
+* `get <scheme> <u2>`              -> `<id:n | err:…> <state>`
+* `sum <x1> … <xn>`                -> bits of the model's `sum([...])`
+* `choose <scheme> <a> <u> <u2> <r1> <id1> …`  (stateless whole move: reset, fill, get)
+                                   -> `<id:n | err:…>` -/
+def liftComp : Comp :=
+  ⟨Lifting Float Nat, Lifting.empty Ops.float, fun s a =>
+    match a with
+    | ["reset"] => let s' := Lifting.reset Ops.float s; (s', showState s')
+    | ["ins", r, i, act, u] =>
+        match Lifting.insert Ops.float s (fl r) (nat! i) (act == "1") (fl u) with
+        | .ok s' => (s', showState s')
+        | .error e => (s, errTok e)
+    | ["get", sch, u2] =>
+        match scheme? sch with
+        | some .inside => (s, s!"{showRes (getInside Ops.float s)} {showState s}")
+        | some .outside =>
+            let (s', r) := getOutside Ops.float s
+            (s', s!"{showRes r} {showState s'}")
+        | some .ratio => (s, s!"{showRes (getRatio Ops.float s (fl u2))} {showState s}")
+        | none => (s, "bad-op")
+    | "sum" :: xs => (s, bits (pySum Ops.float (xs.map fl)))
+    | "choose" :: sch :: a' :: u :: u2 :: tbl =>
+        match scheme? sch with
+        | some sc => (s, showRes (choose Ops.float sc (parseTbl tbl) (nat! a') (fl u) (fl u2)))
+        | none => (s, "bad-op")
+    | _ => (s, "bad-op")⟩
 end JF.Driver
